@@ -4,6 +4,7 @@ package main
 
 import (
 	"fmt"
+	"go/constant"
 	"go/token"
 	"go/types"
 	"os"
@@ -42,6 +43,7 @@ type State struct {
 	heap   map[string]*HeapV
 	alloc  Term
 	defers map[*ssa.Defer]Term // site -> Bool "registered and pending"
+	prov   *prov
 	owned  map[string]ownedCell // cells allocated by the running activations whose address has not been given away
 }
 
@@ -51,7 +53,7 @@ type ownedCell struct {
 }
 
 func (s *State) copy() *State {
-	n := &State{reach: s.reach, alloc: s.alloc, heap: make(map[string]*HeapV, len(s.heap)), defers: make(map[*ssa.Defer]Term, len(s.defers))}
+	n := &State{reach: s.reach, alloc: s.alloc, prov: s.prov, heap: make(map[string]*HeapV, len(s.heap)), defers: make(map[*ssa.Defer]Term, len(s.defers))}
 	for k, v := range s.heap {
 		n.heap[k] = v
 	}
@@ -132,6 +134,7 @@ type Tr struct {
 	coverResult string
 	typeInvMode bool
 	callHints []Term
+	atDone map[string]bool
 	usedAssumed map[string]bool
 	firstIterHints []Term // replay preference: loop-head state of the first iteration
 	isRoot    func(fn *ssa.Function) bool // obligations inside inlined copies of these are dropped
@@ -213,16 +216,67 @@ func (tr *Tr) mapComps(m *types.Map) (dom, val, ln *Component) {
 	return
 }
 
-// heapOf returns the current version of component c in st (creating the initial one on demand).
+// prov records where a state came from, so that a heap component first touched later is
+// resolved soundly (through joins and havocs) instead of falling back to the entry heap.
+type prov struct {
+	kind      string // "join" | "havoc"
+	preds     []*State
+	prev      *State
+	all       bool            // havoc: every shared component may have changed
+	mods      map[string]bool // havoc: components known to change
+	keepValue func(key []Term) Term
+	hint      string
+	resolve   func(c *Component, prev *HeapV) *HeapV
+}
+
+// heapOf returns the current version of component c in st (resolving it lazily).
 func (tr *Tr) heapOf(st *State, c *Component) *HeapV {
 	if h, ok := st.heap[c.name]; ok {
 		return h
 	}
-	h, ok := tr.initHeap[c.name]
-	if !ok {
-		h = tr.newHeapBase(c, "init_"+c.name)
-		h.initial = !c.local
-		tr.initHeap[c.name] = h
+	var h *HeapV
+	switch {
+	case st.prov == nil:
+		var ok bool
+		h, ok = tr.initHeap[c.name]
+		if !ok {
+			h = tr.newHeapBase(c, "init_"+c.name)
+			h.initial = !c.local
+			tr.initHeap[c.name] = h
+		}
+	case st.prov.kind == "join":
+		p := st.prov
+		for i := len(p.preds) - 1; i >= 0; i-- {
+			hv := tr.heapOf(p.preds[i], c)
+			if h == nil {
+				h = hv
+			} else {
+				h = tr.heapIte(p.preds[i].reach, hv, h)
+			}
+		}
+	case st.prov.kind == "custom":
+		h = st.prov.resolve(c, tr.heapOf(st.prov.prev, c))
+	default: // havoc
+		p := st.prov
+		prev := tr.heapOf(p.prev, c)
+		switch {
+		case c.local && !p.mods[c.name]:
+			h = prev
+		case !p.all && !p.mods[c.name]:
+			h = prev
+		case c.local:
+			h = tr.newHeapBase(c, p.hint+"_"+c.name)
+		case len(c.keySorts) == 0:
+			h = tr.newHeapBase(c, p.hint+"_"+c.name)
+		case c.value:
+			h = tr.heapFrame(prev, p.keepValue, p.hint+"_"+c.name)
+		default:
+			if keep := p.prev.keepOwned(c.name); keep != nil {
+				h = tr.heapFrame(prev, keep, p.hint+"_"+c.name)
+			} else {
+				h = tr.newHeapBase(c, p.hint+"_"+c.name)
+			}
+		}
 	}
 	st.heap[c.name] = h
 	return h
@@ -294,6 +348,8 @@ type Act struct {
 	curPos   token.Pos
 	cur      *State
 	mergeRunDefers bool
+	havocCallee *ssa.Function
+	frameCallee *ssa.Function
 	pendingExits   []pendingExit
 }
 
@@ -310,6 +366,7 @@ type loopInfo struct {
 	headSt *State
 	preSt  *State
 	invs   []*loopInv
+	measure []Term
 }
 
 type loopInv struct {
@@ -575,6 +632,7 @@ func (a *Act) firstClass(st *State, lv *LV) Term {
 		fn := "fa_" + typeKey(lv.base.typ) + "_" + fmt.Sprint(lv.field)
 		tr.eng.declareOnce(tr, fn, fmt.Sprintf("(declare-fun %s (Int) Int)", fn))
 		addr := app(fn, base)
+		tr.assume(Implies(Not(Eq(base, "0")), app(">", addr, "0")), "address of a field of a non-nil object is non-nil")
 		if st != nil {
 			c := tr.cellComp(lv.typ)
 			st.heap[c.name] = tr.heapStore(tr.heapOf(st, c), []Term{addr}, a.load(st, lv))
@@ -584,6 +642,7 @@ func (a *Act) firstClass(st *State, lv *LV) Term {
 		fn := "ea_" + typeKey(lv.typ)
 		tr.eng.declareOnce(tr, fn, fmt.Sprintf("(declare-fun %s (Int Int) Int)", fn))
 		addr := app(fn, lv.arr, lv.idx)
+		tr.assume(app(">", addr, "0"), "address of a slice element is non-nil")
 		if st != nil {
 			c := tr.cellComp(lv.typ)
 			st.heap[c.name] = tr.heapStore(tr.heapOf(st, c), []Term{addr}, a.load(st, lv))
@@ -612,18 +671,18 @@ func (a *Act) assumeWF(st *State, t types.Type, x Term, depth int) {
 		f = And(app("idsOK", x, st.alloc), app("valOK", x))
 	} else {
 		f = tr.eng.sorts.idsOKTerm(t, x, st.alloc, 0)
+		if _, isStruct := t.Underlying().(*types.Struct); isStruct {
+			f = And(f, tr.typeInvFor(t, x, st))
+		}
 	}
 	tr.assume(Implies(st.reach, f), "value well-formed and allocated")
 }
 
 func constString(c *ssa.Const) string {
-	s := c.Value.ExactString()
-	// ExactString gives a quoted Go string
-	var out string
-	if _, err := fmt.Sscanf(s, "%q", &out); err == nil {
-		return out
+	if c.Value != nil && c.Value.Kind() == constant.String {
+		return constant.StringVal(c.Value)
 	}
-	return strings.Trim(s, `"`)
+	return ""
 }
 
 func debugf(format string, args ...any) {
